@@ -109,6 +109,11 @@ def setup_worker(rec, ctx) -> None:
     lam("RotationZMatrix", [a, p], L.RotationZMatrix(a, n))
     lam("MatrixMultiplication|yy", [a, a2, p], MatrixMultiplication(L.RotationYMatrix(a, n), L.RotationYMatrix(a2, n)))
     lam("MatrixMultiplication|zz", [a, a2, p], MatrixMultiplication(L.RotationZMatrix(a, n), L.RotationZMatrix(a2, n)))
+    # products with a repeated factor
+    lam("MatrixMultiplication|yy_same", [a, p], MatrixMultiplication(L.RotationYMatrix(a, n), L.RotationYMatrix(a, n)))
+    lam("MatrixMultiplication|zyz_same", [a, a2, p], MatrixMultiplication(L.RotationZMatrix(a, n), L.RotationYMatrix(a2, n), L.RotationZMatrix(a, n)))
+    lam("ArrayMultiplication|rrr", [a, p], ArrayMultiplication(L.RotationZMatrix(a, n), L.RotationZMatrix(a, n), L.RotationZMatrix(a, n), p))
+    lam("MatrixMultiplication|bb", [p], MatrixMultiplication(L.BoostMatrix(p), L.BoostMatrix(p)))
     lam("MatrixMultiplication|zyz", [a, a2, p],
         MatrixMultiplication(L.RotationZMatrix(a, n), L.RotationYMatrix(a2, n), L.RotationZMatrix(-a, n)))
     # helicity-frame chain exactly as compute_helicity_angles builds it
@@ -255,6 +260,9 @@ def _run_case(case, rec, ctx) -> None:
             rest2 = np.asarray(F["ArrayMultiplication|self", cse](p), dtype=float).reshape(n, 4)
             rec.check(bool((np.abs(rest2 - rest) <= 64 * EPS * (gamma ** 2 * m)[:, None]).all()), "array_multiplication",
                       "ArrayMultiplication(BoostMatrix(p), p) differs from matrix-vector product", w, feats)
+            bb = _mat(F["MatrixMultiplication|bb", cse](p), n)
+            rec.check(bool((np.abs(bb - np.einsum("nij,njk->nik", Lm, Lm)).max(axis=(1, 2)) <= 64 * EPS * gamma ** 4).all()), "matrix_multiplication",
+                      "MatrixMultiplication(BoostMatrix(p), BoostMatrix(p)) differs from the square of the boost matrix", w, feats)
             inv = _mat(F["MatrixMultiplication|inv", cse](p), n)
             dev = np.abs(inv - np.eye(4)).max(axis=(1, 2))
             rec.check(bool((dev <= 256 * EPS * scale).all()), "inverse",
@@ -417,6 +425,20 @@ def _run_case(case, rec, ctx) -> None:
             ry = _mat(F[name, cse](ang, p), n); ry2 = _mat(F[name, cse](ang2, p), n)
             rec.check(bool((np.abs(prod - np.einsum("nij,njk->nik", ry, ry2)).max(axis=(1, 2)) <= t).all()), "matrix_multiplication",
                       "MatrixMultiplication einsum differs from the matrix product", w, feats)
+        # repeated factors: R(a) R(a) = R(2a), Rz(a) Ry(b) Rz(a), Rz(a)^3 p
+        t2 = 64 * EPS * np.maximum(1.0, 2 * np.abs(ang) + np.abs(ang2))
+        yy = _mat(F["MatrixMultiplication|yy_same", cse](ang, p), n)
+        rec.check(bool((np.abs(yy - _mat(F["RotationYMatrix", cse](2 * ang, p), n)).max(axis=(1, 2)) <= t2).all()), "composition",
+                  "RotationYMatrix(a) RotationYMatrix(a) (the same factor twice) != RotationYMatrix(2a)", w, feats)
+        rz_ = _mat(F["RotationZMatrix", cse](ang, p), n); ry_ = _mat(F["RotationYMatrix", cse](ang2, p), n)
+        zyz = _mat(F["MatrixMultiplication|zyz_same", cse](ang, ang2, p), n)
+        rec.check(bool((np.abs(zyz - np.einsum("nij,njk,nkl->nil", rz_, ry_, rz_)).max(axis=(1, 2)) <= t2).all()), "matrix_multiplication",
+                  "MatrixMultiplication(Rz(a), Ry(b), Rz(a)) (a factor occurring twice) differs from the ordered matrix product", w, feats)
+        pv_ = np.tile(np.array([1.3, 0.2, -0.4, 0.7]), (n, 1))
+        rrr = np.asarray(F["ArrayMultiplication|rrr", cse](ang, pv_), dtype=float).reshape(n, 4)
+        rz3 = _mat(F["RotationZMatrix", cse](3 * ang, pv_), n)
+        rec.check(bool((np.abs(rrr - np.einsum("nij,nj->ni", rz3, pv_)).max(axis=1) <= 4 * t2).all()), "array_multiplication",
+                  "ArrayMultiplication(Rz(a), Rz(a), Rz(a), p) != Rz(3a) p", w, feats)
         # non-commuting triple product: catches transposed einsum subscripts
         prod = _mat(F["MatrixMultiplication|zyz", cse](ang, ang2, p), n)
         rz = _mat(F["RotationZMatrix", cse](ang, p), n); ry = _mat(F["RotationYMatrix", cse](ang2, p), n)
